@@ -17,9 +17,10 @@ chunk index (unit)
 
 ranged pipeline (system)
 * `rw.reset maxChunkSize` · `rw.write ts:msgLen:fldLen[*N],…` → OnWrite calls, start/end, `CORRUPTED c,…`
+* `rw.writenoindex …` (journal only: the writer is parked before `onWriteCIndex`)
 * `rw.rebuild <dense chunk id|all>` · `rw.autorebuild` (rebuild the chunks the last write reported corrupted) · `rw.hull` → `cid:cnt:min:max …` · `rw.points cid`
 * `r.windows lo hi` → `cid:minPos:maxPos:count …` of a fresh selector (bounds `none` = absent)
-* `r.scan lo hi page` → `got=<runs> spec=<runs> cls=<2,3,41,4,24> fix2=<0|1|-> fix3=<0|1|-> fix23=<0|1|-> fix41=<0|1|->`
+* `r.scan lo hi page` → `got=<runs> spec=<runs> cls=<2,3,41,4,24> fix2=<0|1|-> fix3=<0|1|-> fix23=<0|1|-> fix41=<0|1|-> fixset=<smallest set of repairs {3,2,41} that restores the specification answer|->`
 * `r.new lo hi` · `r.get` · `r.next` · `r.setpos cid idx` · `r.bkwd 0|1` (JIterator step by step)
 -/
 open Logrange Driver
@@ -33,6 +34,7 @@ structure DS where
   rcidx : CIndex.St := {}
   rcidx2 : CIndex.St := {}
   rcidx3 : CIndex.St := {}       -- variant: rebuild with a proper segment maximum (repair of #41)
+  rcidx4 : CIndex.St := {}       -- variant: both repairs (#2 and #41)
   rebuiltNeg : Bool := false     -- a chunk holding a negative timestamp was rebuilt
   allTs : Array Int := #[]
   batches : List (List Int) := []
@@ -166,13 +168,19 @@ def step (d : DS) (toks : List String) : DS × String :=
           let (st, k) := Selector.updatePossWith rmin rmax ch.minTs ch.maxTs (CIndex.grEqAns d.cidx cid) (CIndex.lessAns d.cidx cid) {}
           (d, s!"{st.minPos} {st.maxPos} {k}"))
      | _, _, _ => (d, "bad-op"))
-  | ["rw.reset", m] => ({ d with wj := { maxSize := m.toNat?.getD 100 }, rcidx := {}, rcidx2 := {}, rcidx3 := {}, rebuiltNeg := false, rg := none, allTs := #[], batches := [], layout := none }, "ok")
+  | ["rw.reset", m] => ({ d with wj := { maxSize := m.toNat?.getD 100 }, rcidx := {}, rcidx2 := {}, rcidx3 := {}, rcidx4 := {}, rebuiltNeg := false, rg := none, allTs := #[], batches := [], layout := none }, "ok")
+  | ["rw.writenoindex", spec] =>
+    -- the records are in the journal (readable) but `onWriteCIndex` has not run yet (writer parked before it)
+    let recs := parseRecs spec
+    let (j', out) := WriteLoop.serviceWrite d.wj recs
+    ({ d with wj := j', allTs := d.allTs ++ (recs.map (·.ts)).toArray, batches := (recs.map (·.ts)) :: d.batches, layout := none }, WriteLoop.render out)
   | ["rw.write", spec] =>
     let recs := parseRecs spec
     let (j', ci', out, bad) := RangedIter.write d.wj d.rcidx recs
     let (_, ci2, _, _) := RangedIter.writeWith WriteLoop.IW.repaired d.wj d.rcidx2 recs
     let (_, ci3, _, _) := RangedIter.write d.wj d.rcidx3 recs
-    ({ d with wj := j', rcidx := ci', rcidx2 := ci2, rcidx3 := ci3, allTs := d.allTs ++ (recs.map (·.ts)).toArray, batches := (recs.map (·.ts)) :: d.batches, layout := none, pendingReb := bad },
+    let (_, ci4, _, _) := RangedIter.writeWith WriteLoop.IW.repaired d.wj d.rcidx4 recs
+    ({ d with wj := j', rcidx := ci', rcidx2 := ci2, rcidx3 := ci3, rcidx4 := ci4, allTs := d.allTs ++ (recs.map (·.ts)).toArray, batches := (recs.map (·.ts)) :: d.batches, layout := none, pendingReb := bad },
       WriteLoop.render out ++ (if bad.isEmpty then "" else " CORRUPTED " ++ ",".intercalate (bad.map toString)))
   | "rw.rebuild" :: _ | "rw.autorebuild" :: _ =>
     let (d, lay) := withLayout d
@@ -186,7 +194,7 @@ def step (d : DS) (toks : List String) : DS × String :=
         let i := (lay.1.findIdx? (·.id == id * 10)).getD 0
         CIndex.rebuildRepaired ci id ((lay.2.1[i]?).getD #[]).toList) ci
     let neg := ids.any (fun id => let i := (lay.1.findIdx? (·.id == id * 10)).getD 0; ((lay.2.1[i]?).getD #[]).any (· < 0))
-    ({ d with rcidx := reb d.rcidx, rcidx2 := reb d.rcidx2, rcidx3 := reb3 d.rcidx3, rebuiltNeg := d.rebuiltNeg || neg, pendingReb := if auto then [] else d.pendingReb }, "ok")
+    ({ d with rcidx := reb d.rcidx, rcidx2 := reb d.rcidx2, rcidx3 := reb3 d.rcidx3, rcidx4 := reb3 d.rcidx4, rebuiltNeg := d.rebuiltNeg || neg, pendingReb := if auto then [] else d.pendingReb }, "ok")
   | ["rw.hull"] =>
     (d, " ".intercalate (d.wj.chunks.map (fun c => match CIndex.findChk d.rcidx c.id with
         | some ch => s!"{c.id}:{c.cnt}:{ch.minTs}:{ch.maxTs}"
@@ -219,14 +227,27 @@ def step (d : DS) (toks : List String) : DS × String :=
             (if d.rcidx.chunks.any (fun c => match c.root with | some r => (d.rcidx.store[r]!).level > 0 | none => false) then ["4", "24"] else ["4"])
           else [])
        let clsS := if cls.isEmpty then "-" else ",".intercalate cls
-       if got == spec then (d, s!"got={runs got} spec={runs spec} cls={clsS} fix2=- fix3=- fix23=- fix41=-")
+       if got == spec then (d, s!"got={runs got} spec={runs spec} cls={clsS} fix2=- fix3=- fix23=- fix41=- fixset=-")
        else
          let lo3 : Int := lo.getD Points.minI64
          let f2 := doScan lay d.rcidx2 mn mx page total == spec
          let f3 := doScan lay d.rcidx lo3 mx page total == spec
          let f23 := doScan lay d.rcidx2 lo3 mx page total == spec
          let f41 := d.rebuiltNeg && doScan lay d.rcidx3 mn mx page total == spec
-         (d, s!"got={runs got} spec={runs spec} cls={clsS} fix2={b01 f2} fix3={b01 f3} fix23={b01 f23} fix41={b01 f41}")
+         -- the smallest set of repairs (among the classes that apply) after which the model returns the specification answer
+         let c2 := RangedIter.classZeroSentinel d.batches
+         let c3 := RangedIter.classOpenLower lo d.allTs.toList
+         let c41 := d.rebuiltNeg
+         let tryset (u2 u3 u41 : Bool) : Bool :=
+           (!u2 || c2) && (!u3 || c3) && (!u41 || c41) &&
+           doScan lay (if u2 && u41 then d.rcidx4 else if u2 then d.rcidx2 else if u41 then d.rcidx3 else d.rcidx) (if u3 then lo3 else mn) mx page total == spec
+         let cands : List (Bool × Bool × Bool × String) :=
+           [(false, true, false, "3"), (true, false, false, "2"), (false, false, true, "41"),
+            (true, true, false, "3,2"), (false, true, true, "3,41"), (true, false, true, "2,41"), (true, true, true, "3,2,41")]
+         let fixset := match cands.find? (fun (a, b, c, _) => tryset a b c) with
+           | some (_, _, _, nm) => nm
+           | none => "-"
+         (d, s!"got={runs got} spec={runs spec} cls={clsS} fix2={b01 f2} fix3={b01 f3} fix23={b01 f23} fix41={b01 f41} fixset={fixset}")
      | _, _, _ => (d, "bad-op"))
   | ["r.new", a, b] =>
     (match a.toInt?, b.toInt? with
